@@ -252,7 +252,7 @@ def sdf_jobs(Job, cfg=CFG_NDEBUG, tier="quick"):
 
 
 def c04_extra(Job, tier):
-    return mmb_jobs(Job) + sdf_jobs(Job) + dump_jobs(Job) + viewfile_jobs(Job)
+    return mmb_jobs(Job) + sdf_jobs(Job) + dump_jobs(Job) + viewfile_jobs(Job) + hints_jobs(Job)
 
 
 # ---- C16 extra: connect_drives ---------------------------------------------------------------------------------
@@ -277,7 +277,7 @@ def opus_jobs(Job, cfg=CFG_NDEBUG, tier="quick"):
 
 
 def c17_extra(Job, tier):
-    return opus_jobs(Job) + fileio_jobs(Job)[1:4]
+    return opus_jobs(Job) + fileio_jobs(Job)[1:4] + volctor_jobs(Job)
 
 
 # ---- C01 extra: renderings (ostream event model) --------------------------------------------------------------
@@ -609,6 +609,17 @@ def prefix_jobs(Job, cfg=CFG_NDEBUG, tier="quick"):
             J("afsp_drive_prefix", "h_drive_prefix", ["afsp_drive_prefix"]),
             J("afsp_directory_prefix", "h_directory_prefix", ["afsp_directory_prefix"]),
             J("afsp_assemble", "h_assemble", ["afsp_assemble"])]
+
+
+def volctor_jobs(Job, cfg=CFG_NDEBUG, tier="quick"):
+    g = ["sector_count", "Geometry_total_sectors", "VolumeLocation_len", "VolumeLocation_start_sector", "VolumeAccess_ctor", "Volume_ctor",
+         "init_volumes_opus_vol", "init_volumes_plain_vol"]
+    def J(name, entry, enforce, replace=()):
+        return Job("D_%s_%s" % (name, cfg[0]), "harness/dfs_volctor.c", entry, enforce=enforce, replace=list(replace), defines=list(cfg[1]), extract=ext(g), tier=tier)
+    return [J("volume_access_ctor", "h_access_ctor", ["VolumeAccess_ctor"]),
+            J("volume_ctor", "h_volume_ctor", ["Volume_ctor"], ["VolumeAccess_ctor", "sector_count"]),
+            J("init_volumes_opus_vol", "h_opus_vol", ["init_volumes_opus_vol"], ["Volume_ctor", "VolumeLocation_len", "VolumeLocation_start_sector"]),
+            J("init_volumes_plain_vol", "h_plain_vol", ["init_volumes_plain_vol"], ["Volume_ctor", "Geometry_total_sectors"])]
 
 
 def inventory_precheck(repo):
